@@ -15,6 +15,7 @@ import (
 	"os"
 	"path/filepath"
 	"runtime/debug"
+	"runtime/pprof"
 	"sort"
 	"strconv"
 	"strings"
@@ -98,6 +99,7 @@ type Result struct {
 	Error       string         `json:"error,omitempty"`
 	WallS       float64        `json:"wall_s"`
 	TermPool    int            `json:"term_pool"`
+	ForkAt      map[string]int `json:"fork_at,omitempty"`
 }
 
 func markRO(o *Obj, name string, seen map[*Obj]bool) {
@@ -484,6 +486,9 @@ func (w *World) runJob(job *Job) (res *Result) {
 	}
 	sort.Strings(res.Funcs)
 	res.TermPool = poolSize
+	if job.ID == "cli" {
+		res.ForkAt = ex.forkAt
+	}
 	return
 }
 
@@ -508,8 +513,14 @@ func main() {
 	wEvery := fs.Int("witness", 0, "record a witness every k done paths")
 	part := fs.String("part", "", "lo,hi range for the first input byte")
 	verbose := fs.Bool("v", false, "verbose")
+	prof := fs.String("prof", "", "cpu profile file")
 	fs.Parse(os.Args[2:])
 	debug.SetGCPercent(400)
+	if *prof != "" {
+		f, _ := os.Create(*prof)
+		pprof.StartCPUProfile(f)
+		defer pprof.StopCPUProfile()
+	}
 
 	t0 := time.Now()
 	w, err := loadWorld(*repo, strings.Split(*overlay, ","), *solver)
@@ -582,6 +593,21 @@ func main() {
 			if res.Error != "" {
 				fmt.Println("ERROR:", res.Error)
 			}
+			type kv struct {
+				k string
+				v int
+			}
+			var l []kv
+			for k, v := range res.ForkAt {
+				l = append(l, kv{k, v})
+			}
+			sort.Slice(l, func(i, j int) bool { return l[i].v > l[j].v })
+			for i, e := range l {
+				if i >= 12 {
+					break
+				}
+				fmt.Printf("  fork %6d %s\n", e.v, e.k)
+			}
 			if res.MaxCostIn != "" {
 				fmt.Println("  max cost input:", res.MaxCostIn)
 			}
@@ -590,7 +616,6 @@ func main() {
 		dumpTables(w)
 	default:
 		fmt.Fprintln(os.Stderr, "unknown mode", mode)
-		os.Exit(2)
 	}
 	w.sol.Close()
 }
